@@ -15,6 +15,7 @@ Section TyInd.
   Hypothesis HNone : P TNone.
   Hypothesis HAny : P TAny.
   Hypothesis HList : forall a, P a -> P (TList a).
+  Hypothesis HWrap : forall a, P a -> P (TWrap a).
   Hypothesis HSet : forall a, P a -> P (TSet a).
   Hypothesis HDict : forall a, P a -> P (TDict a).
   Hypothesis HTuple : forall ts, Forall P ts -> P (TTuple ts).
@@ -25,6 +26,7 @@ Section TyInd.
     match t with
     | TInt => HInt | TFloat => HFloat | TBool => HBool | TStr => HStr | TNone => HNone | TAny => HAny
     | TList a => HList a (ty_ind' a)
+    | TWrap a => HWrap a (ty_ind' a)
     | TSet a => HSet a (ty_ind' a)
     | TDict a => HDict a (ty_ind' a)
     | TTuple ts => HTuple ts ((fix go (l: list ty) : Forall P l :=
@@ -50,6 +52,8 @@ Section Unfold.
     SF fuel TNone st = SOk (ty_sk "null", st) /\ SF fuel TAny st = SOk (sk0, st).
   Proof. destruct fuel; repeat split; reflexivity. Qed.
 
+  Lemma sf_wrap fuel a st : SF fuel (TWrap a) st = SF fuel a st.
+  Proof. destruct fuel; reflexivity. Qed.
   Lemma sf_list fuel a st :
     SF fuel (TList a) st = match SF fuel a st with
                            | SOk (s, st1) => SOk (arr_sk (or_none a s) None, st1)
@@ -249,6 +253,7 @@ Section Generic.
       + rewrite sf_list in Hs. destruct (schema_fuel E cfg 0 t st) as [[s1 st1]| |] eqn:E1; try discriminate.
         inversion Hs; subst. destruct (IHt _ _ _ E1 HI) as (A & B & C). repeat split; auto.
         apply G_arr. apply or_none_ok. exact B.
+      + rewrite sf_wrap in Hs. exact (IHt _ _ _ Hs HI).
       + rewrite sf_set in Hs. destruct (schema_fuel E cfg 0 t st) as [[s1 st1]| |] eqn:E1; try discriminate.
         inversion Hs; subst. destruct (IHt _ _ _ E1 HI) as (A & B & C). repeat split; auto.
         apply G_arr. apply or_none_ok. exact B.
@@ -278,6 +283,7 @@ Section Generic.
       + rewrite sf_list in Hs. destruct (schema_fuel E cfg (S fuel) t st) as [[s1 st1]| |] eqn:E1; try discriminate.
         inversion Hs; subst. destruct (IHt _ _ _ E1 HI) as (A & B & C). repeat split; auto.
         apply G_arr. apply or_none_ok. exact B.
+      + rewrite sf_wrap in Hs. exact (IHt _ _ _ Hs HI).
       + rewrite sf_set in Hs. destruct (schema_fuel E cfg (S fuel) t st) as [[s1 st1]| |] eqn:E1; try discriminate.
         inversion Hs; subst. destruct (IHt _ _ _ E1 HI) as (A & B & C). repeat split; auto.
         apply G_arr. apply or_none_ok. exact B.
